@@ -15,4 +15,5 @@ CONSTANTS
   DrainMode = "inner"
   Strict = FALSE
   WithServe = FALSE
+  Hist = FALSE
 PROPERTIES C02_Live
